@@ -131,7 +131,10 @@ C11_WALLS = C11_WALLS_QUICK + ["w_cdn_nonorth_sl", "w_cdn_orth_sl_g2"]
 # ---- weak poloidal field (psi of order 1e-2 Wb: dR/dpsi large far from the X-point): C04, seeded change C04_clip_direction
 _add(_c("lsn_orth_weak", "LSN", [2, 2], [3, 4, 3], 1, "lsn", dict(orthogonal=True, xpoint_refine_atol=1e-14), fpol="quad", psi_scale=0.01))
 _add(_c("cdn_orth_weak", "CDN", [2, 2], [3, 3, 3, 3, 3, 3], 1, "cdn", dict(orthogonal=True, xpoint_refine_atol=1e-14, **DN), fpol="quad", psi_scale=0.01))
-C04_EXTRA = ["lsn_orth_weak", "cdn_orth_weak"]
+# a loosened point-refinement tolerance must not loosen the perpendicular following (seed C04_follow_atol_tied_to_refine); C04 campaign only,
+# since the positions of this grid are on their surfaces to 1e-5 only
+_add(_c("lsn_orth_loose_refine", "LSN", [2, 2], [3, 4, 3], 1, "lsn", dict(orthogonal=True, refine_atol=1.0e-5), fpol="quad"))
+C04_EXTRA = ["lsn_orth_weak", "cdn_orth_weak", "lsn_orth_loose_refine"]
 
 # ---- a disconnected double null with a wide inter-separatrix segment (three cells): its second private-flux segment is where psi0 sits at
 # the far end of the radial list (seed C04_reverse_without_unreverse)
